@@ -116,6 +116,9 @@ func checkRenderTypes(w *World, r *Result) {
 	rt := w.MustFunc("generator/typescript.renderTypes")
 	info := rt.Pkg.TypesInfo
 	collected := map[string]bool{}
+	sp := func(info *types.Info, e ast.Expr, roots map[types.Object]string) string {
+		return strings.Replace(slotPath(info, e, roots), "@E[*]", "E", 1)
+	}
 	ast.Inspect(rt.Decl.Body, func(x ast.Node) bool {
 		rs, ok := x.(*ast.RangeStmt)
 		if !ok {
@@ -126,14 +129,16 @@ func checkRenderTypes(w *World, r *Result) {
 			return true
 		}
 		roots := map[types.Object]string{}
-		if id := identOf(rs.Value); id != nil {
+		if id := identOf(rs.Value); id != nil && id.Name != "_" {
 			roots[info.Defs[id]] = "E"
+		} else if cid := identOf(rs.X); cid != nil && rs.Key != nil {
+			roots[objOf(info, cid)] = "@E" // index loop: `xs[i]` is the element
 		}
 		for iter := 0; iter < 3; iter++ {
 			ast.Inspect(rs.Body, func(y ast.Node) bool {
 				if as, ok := y.(*ast.AssignStmt); ok && len(as.Lhs) == len(as.Rhs) {
 					for i, rhs := range as.Rhs {
-						if p := slotPath(info, rhs, roots); p != "" {
+						if p := sp(info, rhs, roots); p != "" {
 							if id := identOf(as.Lhs[i]); id != nil && roots[objOf(info, id)] == "" {
 								roots[objOf(info, id)] = p
 							}
@@ -141,7 +146,7 @@ func checkRenderTypes(w *World, r *Result) {
 					}
 				}
 				if r2, ok := y.(*ast.RangeStmt); ok && r2 != rs {
-					if p := slotPath(info, r2.X, roots); p != "" {
+					if p := sp(info, r2.X, roots); p != "" {
 						if id := identOf(r2.Value); id != nil && id.Name != "_" && roots[info.Defs[id]] == "" {
 							roots[info.Defs[id]] = p + "[*]"
 						}
@@ -152,7 +157,7 @@ func checkRenderTypes(w *World, r *Result) {
 		}
 		for _, app := range appendStmts(info, rs.Body, "") {
 			for _, a := range app.Rhs[0].(*ast.CallExpr).Args[1:] {
-				if p := slotPath(info, a, roots); p != "" {
+				if p := sp(info, a, roots); p != "" {
 					collected[p] = true
 				}
 			}
@@ -182,7 +187,7 @@ func checkRenderTypes(w *World, r *Result) {
 					}
 					for k, po := range pobjs {
 						if objOf(binfo, id) == po && k < len(call.Args) {
-							if p := slotPath(info, call.Args[k], roots); p != "" {
+							if p := sp(info, call.Args[k], roots); p != "" {
 								collected[p] = true
 							}
 						}
